@@ -24,7 +24,8 @@
 EXTENDS Integers, Sequences, FiniteSets, TLC
 
 CONSTANTS
-    Bounds,         \* [writer |-> <<entries fed in total (rows and markers), channel batches (>= 1, empty ones included)>>]
+    Bounds,         \* [writer |-> <<entries fed in total (rows and markers), channel batches (>= 1, empty ones included),
+                    \*               entries fed in total on inputs outside the property's domain (see Benign)>>]
     MaxTs,          \* vector rows carry a timestamp 1..MaxTs (last-value chooser)
     GuardStreams,   \* TRUE iff exportStreamsValue tests `i == 0 || lastFp != e.Fingerprint`
     GuardTail,      \* same for Tail
@@ -38,6 +39,7 @@ Fps           == 0..2
 Writers       == DOMAIN Bounds                      \* the writers explored
 MaxEntries(wr) == Bounds[wr][1]
 MaxBatches(wr) == Bounds[wr][2]
+MaxOutside(wr) == Bounds[wr][3]
 
 ASSUME Writers \subseteq WriterNames /\ \A wr \in Writers : MaxBatches(wr) >= 1
 
@@ -228,9 +230,15 @@ ListIter(e) ==
          /\ i' = i + 1
          /\ UNCHANGED pc
 
+(* inputs outside the property's domain (an error marker; an entry after an EOF marker in the same batch) are explored *)
+(* to a smaller depth: they only serve the conformance of the spec with the code                                  *)
+Outside(e) == LET cur == hist[Len(hist)] IN
+              e.kind = "err" \/ (cur # <<>> /\ cur[Len(cur)].kind = "eof")
+
 Feed ==
     /\ pc = "loop" /\ fed < MaxEntries(w)
     /\ \E e \in Entries(w) :
+        /\ (Outside(e) \/ ~Benign(hist)) => fed < MaxOutside(w)
         /\ Push(e)
         /\ CASE w \in SeriesWriters -> SeriesIter(e) /\ UNCHANGED <<lv, ord>>
              [] w = "vector"        -> VecIter(e) /\ UNCHANGED <<lastFp, i, j, ord>>
